@@ -165,7 +165,15 @@ fn run_case(base: Instant, c: &Case, dump: bool) -> Out {
                 }
             }
             let server_needed = matches!(c.kind, Kind::ServerClose | Kind::BothClose);
-            let applicable_now = !server_needed || p.sch().map_or(false, |ch| p.w.nodes[SERVER].conns.contains_key(&ch));
+            let mut applicable_now = !server_needed || p.sch().map_or(false, |ch| p.w.nodes[SERVER].conns.contains_key(&ch));
+            // a connection that is already over (idle timeout in the short-timeout configurations)
+            // cannot be closed any more: such a case point is not applicable
+            if matches!(c.kind, Kind::ClientClose | Kind::BothClose) && p.w.nodes[CLIENT].conns.get(&p.cch).map_or(true, |s| s.conn.is_closed()) {
+                applicable_now = false;
+            }
+            if server_needed && p.sch().and_then(|ch| p.w.nodes[SERVER].conns.get(&ch)).map_or(true, |s| s.conn.is_closed()) {
+                applicable_now = false;
+            }
             if closed_at.is_none() && p.w.steps >= c.at_step && c.kind != Kind::None && applicable_now {
                 closed_at = Some(p.w.t);
                 let e0 = p.w.emitted;
@@ -294,7 +302,15 @@ fn run_case(base: Instant, c: &Case, dump: bool) -> Out {
                             (d.contains("ApplicationClosed") && d.contains(&format!("error_code: {code}")) && d.contains("bye"))
                                 || (d.contains("ConnectionClosed") && d.contains("APPLICATION_ERROR"))
                         });
-                        if !ok && close_emitted {
+                        // (a peer whose own connection had ended before the close cannot learn of it)
+                        let timed_out = s.lost.iter().any(|e| format!("{e:?}").contains("TimedOut"));
+                        let peer_was_alive = match (life.closed_at, closed_at) {
+                            (Some(t), Some(c)) => !(timed_out && t <= c + p.w.latency + Duration::from_millis(5)),
+                            // the close never took place (not applicable at any step)
+                            (_, None) => false,
+                            _ => true,
+                        };
+                        if !ok && close_emitted && peer_was_alive {
                             v.push((format!("peer-did-not-learn-close:{who}"), format!("{who} should have seen the peer's close(42, \"bye\") over a lossless path, saw {:?} (state closed_at={:?})", s.lost, life.closed_at)));
                         }
                     }
